@@ -394,7 +394,7 @@ class LinearTime(TimeCachingAdapter):
 
     def _interpolate(self, time):
         if len(self.data) == 1:
-            return self.data[0][1]
+            return self._unpack(self.data[0][1])
 
         for i, (t, data) in enumerate(self.data):
             if time > t:
@@ -456,7 +456,7 @@ class StepTime(TimeCachingAdapter):
 
     def _interpolate(self, time):
         if len(self.data) == 1:
-            return self.data[0][1]
+            return self._unpack(self.data[0][1])
 
         for i, (t, data) in enumerate(self.data):
             if time > t:
